@@ -3185,6 +3185,9 @@ func (c *pipelineConnClient) reader(conn net.Conn, stopCh <-chan struct{}, chs *
 				return err
 			}
 		}
+		if w.req.Header.IsHead() {
+			w.resp.SkipBody = true
+		}
 		if err = w.resp.Read(br); err != nil {
 			w.err = err
 			w.done <- struct{}{}
